@@ -415,11 +415,22 @@ func (in *Interp) exec(p *Path, fr *Frame) Val {
 	fname := fn.String()
 	block := fn.Blocks[0]
 	var prev *ssa.BasicBlock
+	var merged map[*ssa.Phi]Val
 	for {
 		var next *ssa.BasicBlock
 		// phis first (parallel assignment)
 		nphi := 0
-		if prev != nil {
+		if merged != nil {
+			for _, ins := range block.Instrs {
+				phi, ok := ins.(*ssa.Phi)
+				if !ok {
+					break
+				}
+				fr.env[phi] = merged[phi]
+				nphi++
+			}
+			merged = nil
+		} else if prev != nil {
 			var idx = -1
 			for i, pr := range block.Preds {
 				if pr == prev {
@@ -456,6 +467,15 @@ func (in *Interp) exec(p *Path, fr *Frame) Val {
 					p.unwind[k]++
 					if p.unwind[k] > p.ex.cfg.Unwind {
 						p.end("unwind", fmt.Sprintf("%s: more than %d symbolic decisions at one branch", fname, p.ex.cfg.Unwind))
+					}
+				}
+				if !c.C && !p.ex.cfg.NoMerge {
+					if j, phis, ret, ok := in.tryMerge(p, fr, block, c); ok {
+						if j == nil {
+							return ret
+						}
+						next, merged = j, phis
+						break
 					}
 				}
 				if p.branch(c) {
@@ -1612,4 +1632,241 @@ func (in *Interp) copySlice(p *Path, dst SliceVal, src Val) Val {
 		dEl[i] = p.ite(p.bvCmp("bvult", mkInt(int64(i)), n), nt, ot)
 	}
 	return n
+}
+
+// ---------------------------------------------------------------- diamond merging
+
+func scalarType(t types.Type) bool {
+	b, ok := t.Underlying().(*types.Basic)
+	if !ok {
+		return false
+	}
+	return b.Info()&(types.IsBoolean|types.IsInteger|types.IsFloat) != 0
+}
+
+func (in *Interp) pureInstr(ins ssa.Instruction) bool {
+	switch x := ins.(type) {
+	case *ssa.BinOp:
+		if _, _, isInt := intWidth(x.X.Type()); isInt {
+			switch x.Op {
+			case token.QUO, token.REM:
+				return false
+			case token.SHL, token.SHR:
+				if _, ys, _ := intWidth(x.Y.Type()); ys {
+					if _, isC := x.Y.(*ssa.Const); !isC {
+						return false
+					}
+				}
+			}
+			return true
+		}
+		return scalarType(x.X.Type()) || isString(x.X.Type())
+	case *ssa.UnOp:
+		return x.Op == token.NOT || x.Op == token.SUB || x.Op == token.XOR
+	case *ssa.Convert:
+		return scalarType(x.X.Type()) && scalarType(x.Type())
+	case *ssa.ChangeType:
+		return scalarType(x.Type())
+	case *ssa.DebugRef:
+		return true
+	case *ssa.Call:
+		if x.Call.IsInvoke() {
+			return false
+		}
+		fn := x.Call.StaticCallee()
+		if fn == nil {
+			return false
+		}
+		return in.pureFn(fn)
+	}
+	return false
+}
+
+var pureFnMemo = map[*ssa.Function]int{} // 1 pure, 2 not
+var pureFnMu sync.Mutex
+
+func (in *Interp) pureFn(fn *ssa.Function) bool {
+	pureFnMu.Lock()
+	m := pureFnMemo[fn]
+	pureFnMu.Unlock()
+	if m != 0 {
+		return m == 1
+	}
+	res := in.pureFnCompute(fn)
+	pureFnMu.Lock()
+	if res {
+		pureFnMemo[fn] = 1
+	} else {
+		pureFnMemo[fn] = 2
+	}
+	pureFnMu.Unlock()
+	return res
+}
+
+func (in *Interp) pureFnCompute(fn *ssa.Function) bool {
+	if _, isIntr := in.intr[fn.String()]; isIntr {
+		switch fn.String() {
+		case "math.Abs", "math.IsNaN", "math.Float64bits", "math.Float64frombits":
+			return true
+		}
+		return false
+	}
+	if strings.HasPrefix(fn.Name(), "vx") {
+		return false
+	}
+	if fn.Blocks == nil || len(fn.Blocks) > 12 || len(fn.FreeVars) > 0 {
+		return false
+	}
+	pureFnMu.Lock()
+	pureFnMemo[fn] = 2 // recursion guard
+	pureFnMu.Unlock()
+	for _, prm := range fn.Params {
+		if !scalarType(prm.Type()) {
+			return false
+		}
+	}
+	for _, b := range fn.Blocks {
+		for i, ins := range b.Instrs {
+			if i == len(b.Instrs)-1 {
+				switch t := ins.(type) {
+				case *ssa.Return:
+					for _, r := range t.Results {
+						if !scalarType(r.Type()) {
+							return false
+						}
+					}
+				case *ssa.If:
+				case *ssa.Jump:
+					// no back edges
+					if b.Succs[0].Index <= b.Index {
+						return false
+					}
+				default:
+					return false
+				}
+				continue
+			}
+			if _, isPhi := ins.(*ssa.Phi); isPhi {
+				if !scalarType(ins.(*ssa.Phi).Type()) {
+					return false
+				}
+				continue
+			}
+			if !in.pureInstr(ins) {
+				return false
+			}
+		}
+	}
+	pureFnMu.Lock()
+	delete(pureFnMemo, fn)
+	pureFnMu.Unlock()
+	return true
+}
+
+func (in *Interp) pureArm(b *ssa.BasicBlock) bool {
+	if len(b.Preds) != 1 {
+		return false
+	}
+	for _, ins := range b.Instrs[:len(b.Instrs)-1] {
+		if !in.pureInstr(ins) {
+			return false
+		}
+	}
+	return true
+}
+
+func (in *Interp) evalArm(p *Path, fr *Frame, b *ssa.BasicBlock) {
+	for _, ins := range b.Instrs[:len(b.Instrs)-1] {
+		p.steps++
+		in.step(p, fr, ins)
+	}
+}
+
+func phiEdge(j, from *ssa.BasicBlock) int {
+	for i, pr := range j.Preds {
+		if pr == from {
+			return i
+		}
+	}
+	return -1
+}
+
+func phisScalar(j *ssa.BasicBlock) bool {
+	for _, ins := range j.Instrs {
+		phi, ok := ins.(*ssa.Phi)
+		if !ok {
+			break
+		}
+		if !scalarType(phi.Type()) {
+			return false
+		}
+	}
+	return true
+}
+
+// tryMerge turns a side-effect-free diamond / triangle / two-way return into ite terms.
+func (in *Interp) tryMerge(p *Path, fr *Frame, block *ssa.BasicBlock, c *Term) (*ssa.BasicBlock, map[*ssa.Phi]Val, Val, bool) {
+	t, f := block.Succs[0], block.Succs[1]
+	if t == f {
+		return nil, nil, nil, false
+	}
+	jumpTo := func(b *ssa.BasicBlock) *ssa.BasicBlock {
+		if _, ok := b.Instrs[len(b.Instrs)-1].(*ssa.Jump); ok {
+			return b.Succs[0]
+		}
+		return nil
+	}
+	var j, fromT, fromF *ssa.BasicBlock
+	tPure, fPure := in.pureArm(t), in.pureArm(f)
+	switch {
+	case tPure && fPure && jumpTo(t) != nil && jumpTo(t) == jumpTo(f):
+		j, fromT, fromF = jumpTo(t), t, f
+	case tPure && jumpTo(t) == f:
+		j, fromT, fromF = f, t, block
+	case fPure && jumpTo(f) == t:
+		j, fromT, fromF = t, block, f
+	case tPure && fPure:
+		rt, ok1 := t.Instrs[len(t.Instrs)-1].(*ssa.Return)
+		rf, ok2 := f.Instrs[len(f.Instrs)-1].(*ssa.Return)
+		if !ok1 || !ok2 || len(rt.Results) != len(rf.Results) || len(rt.Results) == 0 {
+			return nil, nil, nil, false
+		}
+		for _, r := range rt.Results {
+			if !scalarType(r.Type()) {
+				return nil, nil, nil, false
+			}
+		}
+		in.evalArm(p, fr, t)
+		in.evalArm(p, fr, f)
+		vals := make(TupleVal, len(rt.Results))
+		for i := range rt.Results {
+			vals[i] = p.ite(c, asTerm(in.get(p, fr, rt.Results[i])), asTerm(in.get(p, fr, rf.Results[i])))
+		}
+		if len(vals) == 1 {
+			return nil, nil, vals[0], true
+		}
+		return nil, nil, vals, true
+	default:
+		return nil, nil, nil, false
+	}
+	if !phisScalar(j) || phiEdge(j, fromT) < 0 || phiEdge(j, fromF) < 0 {
+		return nil, nil, nil, false
+	}
+	// the join must be entered only from the merged region's two edges for the ite to be complete
+	if fromT != block {
+		in.evalArm(p, fr, fromT)
+	}
+	if fromF != block {
+		in.evalArm(p, fr, fromF)
+	}
+	phis := map[*ssa.Phi]Val{}
+	it, ifx := phiEdge(j, fromT), phiEdge(j, fromF)
+	for _, ins := range j.Instrs {
+		phi, ok := ins.(*ssa.Phi)
+		if !ok {
+			break
+		}
+		phis[phi] = p.ite(c, asTerm(in.get(p, fr, phi.Edges[it])), asTerm(in.get(p, fr, phi.Edges[ifx])))
+	}
+	return j, phis, nil, true
 }
